@@ -186,7 +186,7 @@ def run(prog: Program, ctx: Ctx) -> None:  # noqa: PLR0912,PLR0915
         return {"cls": "ExprBinOp", "left": nested, "operator": "|", "right": {"cls": "ExprBinOp", "left": dict(chain) | {"values": [dict(v) for v in chain["values"]]}, "operator": "|", "right": call}}
 
     def klass(n_: str, bases: list, decorators: list, members: list) -> dict:
-        return {"kind": "class", "name": n_, "lineno": 1, "endlineno": 2, "bases": bases, "labels": [], "members": members,
+        return {"kind": "class", "name": n_, "lineno": 1, "endlineno": 2, "bases": bases, "labels": [], "members": {m_["name"]: m_ for m_ in members},
                 "decorators": [{"value": d, "lineno": 1, "endlineno": 1} for d in decorators]}
 
     def func(n_: str, ann: dict | None, default: dict | None, returns: dict | None, decorators: list) -> dict:
@@ -197,20 +197,27 @@ def run(prog: Program, ctx: Ctx) -> None:  # noqa: PLR0912,PLR0915
     def attr(n_: str, ann: dict | None, value: dict | None) -> dict:
         return {"kind": "attribute", "name": n_, "lineno": 1, "endlineno": 1, "labels": [], "annotation": ann, "value": value}
 
-    doc = {"kind": "module", "name": "shop", "filepath": "shop.py", "labels": [], "members": [
+    # members are written as a mapping keyed by member name (Object.as_dict); `kind` and `cls` are ordinary member names
+    top_members = [
         klass("Meta", [], [], []),
         func("register", name("T"), name("D"), name("R"), [name("deco")]),
         attr("top", name("A"), name("V")),
+        attr("kind", None, None),
+        attr("cls", None, None),
         klass("Model", [name("Meta")], [name("register")], [
             klass("Meta", [name("Base")], [name("inner_deco")], []),
             func("register", name("T"), name("D"), name("R"), [name("deco")]),
             attr("x", name("Meta"), name("V")),
+            attr("kind", None, None),
         ]),
-    ]}
+    ]
+    doc = {"kind": "module", "name": "shop", "filepath": "shop.py", "labels": [], "members": {m_["name"]: m_ for m_ in top_members}}
     root = None
     try:
         root = json.loads(json.dumps(doc), object_hook=lambda d: it.call(jd, d))
-        ctx.ob("R2", "decode|minimal document", True, "the decoder loads a minimal document with every kind of object", where(jd))
+        names = sorted(root.attrs["members"]) if isinstance(root, Obj) else None
+        ctx.ob("R2", "decode|minimal document", names == sorted(m_["name"] for m_ in top_members),
+               f"the decoder loads a minimal document with every kind of object and members named `kind` / `cls`: members {names}", where(jd))
     except Raised as r:
         ctx.ob("R2", "decode|minimal document", False, f"the decoder raises {r.exc} on a minimal document (module, classes, functions, attributes as the writer emits them)", where(jd))
 
@@ -370,16 +377,21 @@ def run(prog: Program, ctx: Ctx) -> None:  # noqa: PLR0912,PLR0915
            f"Alias.as_dict writes target_path = {unparse(tp.values[0]) if tp and tp.values else None}: intermediate hops of alias chains are lost", tp.owner if tp else "")
     nm = awk.get("name")
     ctx.ob("R5", "alias-name", nm is not None and unparse(nm.values[0]) == "self.name", "Alias.as_dict writes the alias's own name", nm.owner if nm else "")
-    cfgj = cfg_of(jd)
-    idxj = node_index(jd)
-    for c in calls_in(jd.node):
-        nm_ = dotted(c.func) or unparse(c.func)
-        if nm_ in ("_load_parameter",) or nm_.startswith("_loader_map"):
-            for x in idxj.get(id(c), []):
-                ok = cfgj.dominated_by_fact(x, lambda a, t: not t and unparse(a) == "'cls' in obj_dict")
-                ctx.ob("R5", key(jd, f"cls-before-kind:{nm_}"), ok,
-                       "object/parameter loaders run only for dicts without `cls` (an ExprParameter dict carries both `cls` and `kind`)", where(jd, c))
-
+    # dispatch of the decoder, decided on the dictionaries themselves (evaluated): an expression dictionary that also carries `kind`
+    # (ExprParameter) is an expression; a parameter is not mistaken for an object; a plain mapping stays a mapping
+    for label, d, want_cls in (
+        ("lambda parameter (cls + kind)", {"cls": "ExprParameter", "name": "p", "kind": "positional-only", "annotation": None, "default": None}, "ExprParameter"),
+        ("parameter", {"name": "p", "kind": "positional or keyword", "annotation": None, "default": None}, "Parameter"),
+        ("attribute", {"kind": "attribute", "name": "a", "lineno": 1, "endlineno": 1, "labels": [], "annotation": None, "value": None}, "Attribute"),
+        ("plain mapping", {"anything": 1}, None),
+    ):
+        try:
+            it.steps = 0
+            res = it.call(jd, dict(d))
+            got_cls = res.cls.name if isinstance(res, Obj) and res.cls is not None else None
+        except Raised as r:
+            got_cls = f"raises {r.exc}"
+        ctx.ob("R5", f"dispatch|{label}", got_cls == want_cls, f"json_decoder({label}) builds {got_cls}, expected {want_cls}", where(jd))
 
 def _anc(node: ast.AST):
     from sa.srcmodel import ancestors
